@@ -258,9 +258,14 @@ def hunt_one(ctx, name, o, d, stats, history=None):
                 fp = "lexclass:%s:%s->%s" % (sig, e[0], g[0] if g else "none")
         else:
             hid = g is not None and isinstance(g[1], str) and g[1].startswith("__")
-            fp = "hidden:printed" if hid else "structure:token-%s" % ("missing" if g is None else "extra" if e is None else "differs")
-        if ctx.match_known(fp) is None or not where:
+            cfg = hid and any(x[1] == "CONFIG" for x in got[max(0, i - 2):i])
+            fp = ("hidden:printed:config" if cfg else "hidden:printed") if hid else "structure:token-%s" % ("missing" if g is None else "extra" if e is None else "differs")
+        if ctx.match_known(fp) is None:
             break
+        if not where:
+            stats["issue:" + fp] += 1
+            ctx.violation(fp, "", {})
+            return
         # known finding at slot `where`: drop the rest of this slot's tokens on both sides and continue
         stats["issue:" + fp] += 1
         ctx.violation(fp, "", {})
@@ -305,6 +310,7 @@ def designed_docs():
             ("allof-hex", load_snippet('CLASS BACKGROUNDCOLOR "#ff0000" END')),
             ("list-binding", load_snippet("LABEL SHADOWSIZE [a] [b] END")),
             ("offset-binding", load_snippet("STYLE OFFSET [a] 2 END")),
+            ("hidden-config", CI(CI, [("__type__", "map"), ("config", CI(CI, [("__x__", "y"), ("a", "b")]))])),
             ("hidden", CI(CI, [("__type__", "layer"), ("__position__", {"line": 1}), ("__tokens__", ["x"]), ("name", "x"), ("__x__", "y")]))]
     l = load_snippet("LAYER NAME 'x' END")
     _ = l["group"]
@@ -375,17 +381,17 @@ def run(ctx):
         docs.append((name, dict(P.DEFAULT_OPTS), d, None))
         docs.append((name, P.rand_opts(rng), d, None))
     types = P.object_types()
-    n_gen = ctx.budget(700, 10000)
+    n_gen = ctx.budget(400, 10000)
     for i in range(n_gen):
         ty = types[i % len(types)] if i < 4 * len(types) else rng.choice(["map", "layer", "class", "style", "label"] + types)
         d = P.gen_doc(rng, ty, p_key=rng.choice([0.2, 0.5, 0.9, 1.0]), comments=rng.choice([0, 0, 0.4]))
         docs.append(("gen:" + ty, P.rand_opts(rng), d, None))
-    n_hist = ctx.budget(500, 8000)
+    n_hist = ctx.budget(300, 8000)
     for i in range(n_hist):
         d = P.gen_doc(rng, rng.choice(["map", "map", "layer", "class"]), p_key=rng.choice([0.2, 0.5]))
         log = random_history(rng, d, rng.randint(1, 8))
         docs.append(("history", P.rand_opts(rng), d, [list(map(str, x)) for x in log]))
-    cdocs, n_unparsed = P.corpus_docs(rng, n_files=ctx.budget(25, None), max_size=ctx.budget(30000, None))
+    cdocs, n_unparsed = P.corpus_docs(rng, n_files=ctx.budget(15, None), max_size=ctx.budget(20000, None))
     for name, d in cdocs:
         docs.append((name, P.rand_opts(rng), d, None))
     ctx.count("generated_documents", n_gen)
@@ -393,7 +399,7 @@ def run(ctx):
     ctx.count("corpus_documents", len(cdocs))
     # ---------------- O-lines on a subset
     if ctx.model_ok:
-        sub = docs[: ctx.budget(400, 4000)] + docs[-len(cdocs):]
+        sub = docs[: ctx.budget(250, 4000)] + docs[-len(cdocs):]
         model = P.model_lines([(o, d) for _, o, d, _ in sub])
         n_bad = 0
         for (name, o, d, h), mm in zip(sub, model):
